@@ -121,6 +121,15 @@ Next ==
                 Call(a, ain, aout, inNull, outNull, resv, iret, uin, uout)
         ELSE Call(a, ain, aout, inNull, outNull, resv, "OK", 0, 0)
 
+\* Re-initialisation of the same handle with (another) coder WITHOUT lzma_end(): lzma_next_strm_init() calls
+\* lzma_strm_init(), which resets the sequence, allow_buf_error, the totals and ALL supported_actions[], and the
+\* constructor then enables its own actions.  (lzma_end() followed by a constructor has the same abstract effect.)
+Reinit(sup) ==
+    /\ inited' = TRUE /\ supported' = sup /\ seq' = "RUN" /\ allowBuf' = FALSE
+    /\ totalIn' = 0 /\ totalOut' = 0
+    /\ savedIn' = savedIn          \* lzma_strm_init() does not touch internal->avail_in
+    /\ obs' = [kind |-> "reinit", sup |-> sup]
+
 Spec == Init /\ [][Next]_vars
 
 TypeOK ==
